@@ -10,9 +10,33 @@ import (
 )
 
 var Registry = map[string]func(){
-	"Point":         Point,
-	"WrappedHeader": WrappedHeader,
-	"RollForward":   RollForward,
+	"Point":          Point,
+	"WrappedHeader":  WrappedHeader,
+	"RollForward":    RollForward,
+	"PointRoundTrip": PointRoundTrip,
+}
+
+// PointRoundTrip: a chain point built through the library -- the origin, or any slot
+// (zero included) with a hash -- encodes and decodes back to an equal point.
+func PointRoundTrip() {
+	cbor.VerifAutoDeposit = true
+	p := pcommon.Point{Slot: sym.U64("slot")}
+	if sym.Bool("has_hash") {
+		p.Hash = sym.Bytes("hash", 32)
+	} else {
+		sym.Assume(p.Slot == 0) // the origin; a slot without a hash is not a point
+	}
+	data, err := p.MarshalCBOR()
+	sym.Reach("encoded")
+	sym.Assert(err == nil, "a point encodes")
+	var q pcommon.Point
+	err = q.UnmarshalCBOR(data)
+	sym.Assert(err == nil, "an encoded point decodes")
+	sym.Assert(q.Slot == p.Slot, "the slot survives the round trip")
+	sym.Assert((q.Hash == nil) == (p.Hash == nil) && len(q.Hash) == len(p.Hash), "the hash survives the round trip (a point at slot 0 with a hash is not the origin)")
+	for i := range p.Hash {
+		sym.Assert(q.Hash[i] == p.Hash[i], "the hash bytes survive the round trip")
+	}
 }
 
 // element of a generically decoded list: kind 0 unsigned integer, 1 byte string, 2 text string
